@@ -326,6 +326,7 @@ func cmdSelftest(args []string) int {
 	selftestRound5(check)
 	selftestAnticipatory(check)
 	selftestDerivedKey(check)
+	selftestRound6(check)
 
 	// 6. every rule table entry that names a function has the documented key shape
 	var badKeys []string
